@@ -1640,7 +1640,9 @@ impl<T: ArrayValue> Array<T> {
         indices_rise.sort_unstable_by_key(|&i| normalized_indices[i]);
         let row_elems = row_shape.elements();
         // Init buffer
-        let mut data = EcoVec::<T>::with_capacity(row_count * row_shape.elements());
+        let elem_count =
+            validate_size::<T>([row_count].into_iter().chain(row_shape.iter().copied()), env)?;
+        let mut data = EcoVec::<T>::with_capacity(elem_count);
         let mut next = 0;
         // Unselect
         for rise in indices_rise {
